@@ -13,9 +13,15 @@ const (
 )
 
 type Outcome struct {
-	Kind int
-	At   int // offset into the input (including a BOM) of the offending byte, for Reject
+	Kind  int
+	At    int    // offset into the input (including a BOM) of the offending byte, for Reject; len(input) otherwise
+	Depth int    // open containers at the end / at the offending byte
+	Trace string // reference automaton states, one letter per byte (path-determined: used in finding signatures)
 }
+
+var kindNames = [...]string{"Accept", "NoDoc", "Reject", "Incomplete"}
+
+func (o Outcome) KindName() string { return kindNames[o.Kind] }
 
 func (o Outcome) OK() bool { return o.Kind == Accept || o.Kind == NoDoc }
 
@@ -202,10 +208,24 @@ type Machine struct {
 	HexLeft int    // remaining hex digits of \u
 	Lit     string // literal being matched
 	LitPos  int
-	Seen    bool // a top-level value has started
+	Seen    bool   // a top-level value has started
+	Trace   []byte // one letter per consumed byte: the state after it ('!'+class symbol on reject)
 }
 
-func (m *Machine) Init() { m.State = sValue; m.Depth = 0; m.Seen = false }
+const stateLetters = "VAOKCaSEUNZIDFesXL"
+const classSymbols = "o wc\"\\{}[],:-+.01ehtfnruab/"
+
+func (m *Machine) Init() { m.State = sValue; m.Depth = 0; m.Seen = false; m.Trace = m.Trace[:0] }
+
+// Feed is Step plus trace recording.
+func (m *Machine) Feed(b byte) bool {
+	if !m.Step(b) {
+		m.Trace = append(m.Trace, '!')
+		return false
+	}
+	m.Trace = append(m.Trace, stateLetters[m.State])
+	return true
+}
 
 func (m *Machine) inObject() bool { return m.Depth > 0 && m.Stack[m.Depth-1] == '{' }
 
@@ -412,11 +432,11 @@ func Classify(buf []byte) Outcome {
 	var m Machine
 	m.Init()
 	for i := off; i < len(buf); i++ {
-		if !m.Step(buf[i]) {
-			return Outcome{Kind: Reject, At: i}
+		if !m.Feed(buf[i]) {
+			return Outcome{Kind: Reject, At: i, Trace: string(m.Trace), Depth: m.Depth}
 		}
 	}
-	return Outcome{Kind: m.AtEnd()}
+	return Outcome{Kind: m.AtEnd(), At: len(buf), Trace: string(m.Trace), Depth: m.Depth}
 }
 
 // LineCol converts an offset to the 1-based line / byte column convention
@@ -432,3 +452,9 @@ func LineCol(buf []byte, at int) (line, col int) {
 	}
 	return line, at - last
 }
+
+// ClassSymbol names the reference byte class of b (one character). The
+// class index is concretised by the caller (vx.Concrete) so that the
+// symbol can be used in a finding signature.
+func ClassIndex(b byte) int    { return int(class[b]) }
+func ClassSymbol(i int) string { return classSymbols[i : i+1] }
